@@ -25,6 +25,7 @@ import (
 	"bytes"
 	"context"
 	"crypto/sha256"
+	"database/sql"
 	"encoding/hex"
 	"encoding/json"
 	"fmt"
@@ -39,6 +40,8 @@ import (
 	"sync"
 	"testing"
 	"time"
+
+	_ "github.com/mattn/go-sqlite3"
 
 	"github.com/uber/kraken/core"
 	"github.com/uber/kraken/origin/blobclient"
@@ -173,6 +176,7 @@ type op struct {
 	NS      string `json:"ns,omitempty"`
 	DelayMs int    `json:"delay_ms,omitempty"`
 	Mode    string `json:"mode,omitempty"`
+	Target  string `json:"target,omitempty"` // backend op: a | b | both
 	Hours   int    `json:"hours,omitempty"`
 	TTLHr   int    `json:"ttl_hr,omitempty"`
 	When    int    `json:"when,omitempty"` // kill: 0 = SIGKILL now, >0 = attach strace, kill on the N-th write-type syscall of a thread
@@ -186,7 +190,17 @@ type script struct {
 	Ops      []op   `json:"ops"`
 }
 
-var namespaces = []string{"library/app", "team/svc", "x"}
+// namespaces a/... are served by backend A, everything else by backend B
+var namespaces = []string{"a/app", "a/svc", "b/app", "x"}
+
+func backendOf(ns string) string {
+	if strings.HasPrefix(ns, "a/") {
+		return "a"
+	}
+	return "b"
+}
+
+const longDelayMs = 3600 * 1000 // a duplicate upload whose write-back is not due during the whole script
 
 func genScript(r *rand.Rand, id string, quick bool) script {
 	s := script{ID: id, Capacity: 2 + r.Intn(3), TwoRing: r.Intn(2) == 0}
@@ -195,8 +209,45 @@ func genScript(r *rand.Rand, id string, quick bool) script {
 		n = 30 + r.Intn(40)
 	}
 	blobs := 0
-	s.Ops = append(s.Ops, op{Op: "backend", Mode: []string{"up", "down", "flaky", "down"}[r.Intn(4)]})
+	modes := []string{"up", "down", "flaky"}
+	targets := []string{"a", "b", "both"}
+	s.Ops = append(s.Ops, op{Op: "backend", Target: "both", Mode: []string{"up", "down", "flaky", "down"}[r.Intn(4)]})
+	directed := 0
 	for i := 0; i < n; i++ {
+		// directed sub-sequences (each script gets both kinds at PRNG-chosen places)
+		if directed < 2 && (r.Intn(12) == 0 || i == n-2-directed) {
+			if directed == 0 {
+				// same digest under two namespaces served by different backends, one backend down:
+				// the second commit takes the upload-conflict path
+				down, up := "a", "b"
+				if r.Intn(2) == 0 {
+					down, up = "b", "a"
+				}
+				nsOf := map[string][]string{"a": {"a/app", "a/svc"}, "b": {"b/app", "x"}}
+				blobs++
+				first, second := down, up
+				if r.Intn(2) == 0 {
+					first, second = up, down
+				}
+				s.Ops = append(s.Ops,
+					op{Op: "backend", Target: up, Mode: "up"}, op{Op: "backend", Target: down, Mode: "down"},
+					op{Op: "upload", Blob: blobs, NS: nsOf[first][r.Intn(2)]},
+					op{Op: "reupload", Blob: blobs, NS: nsOf[second][r.Intn(2)]},
+					op{Op: "sleep", Ms: 120},
+					op{Op: "kill"})
+			} else {
+				// duplicate commit whose write-back is delayed, then a forced cleanup before the delay elapsed
+				blobs++
+				s.Ops = append(s.Ops,
+					op{Op: "backend", Target: "both", Mode: []string{"up", "up", "down"}[r.Intn(3)]},
+					op{Op: "dupupload", Blob: blobs, NS: namespaces[r.Intn(len(namespaces))], DelayMs: longDelayMs},
+					op{Op: "forcecleanup", TTLHr: 0},
+					op{Op: "advance", Hours: 3},
+					op{Op: "cleanup"})
+			}
+			directed++
+			continue
+		}
 		switch x := r.Intn(100); {
 		case x < 6:
 			// LRU pressure: several new blobs back to back
@@ -211,9 +262,9 @@ func genScript(r *rand.Rand, id string, quick bool) script {
 			s.Ops = append(s.Ops, op{Op: "reupload", Blob: 1 + r.Intn(blobs), NS: namespaces[r.Intn(len(namespaces))]})
 		case x < 42:
 			blobs++
-			s.Ops = append(s.Ops, op{Op: "dupupload", Blob: blobs, NS: namespaces[r.Intn(len(namespaces))], DelayMs: []int{0, 30, 80}[r.Intn(3)]})
+			s.Ops = append(s.Ops, op{Op: "dupupload", Blob: blobs, NS: namespaces[r.Intn(len(namespaces))], DelayMs: []int{0, 30, 80, longDelayMs}[r.Intn(4)]})
 		case x < 52:
-			s.Ops = append(s.Ops, op{Op: "backend", Mode: []string{"up", "down", "flaky"}[r.Intn(3)]})
+			s.Ops = append(s.Ops, op{Op: "backend", Target: targets[r.Intn(3)], Mode: modes[r.Intn(3)]})
 		case x < 60:
 			s.Ops = append(s.Ops, op{Op: "advance", Hours: []int{1, 3, 10}[r.Intn(3)]})
 		case x < 70:
@@ -252,7 +303,7 @@ type runner struct {
 	dir   string
 	sc    script
 	seed  int64
-	be    *backendSrv
+	bes   map[string]*backendSrv // "a", "b"
 	r     *rand.Rand
 	blobs map[int]*blobT
 
@@ -261,8 +312,11 @@ type runner struct {
 	client    *blobclient.HTTPClient
 	waitTrace func()
 
-	acked    map[string]*blobT // hex -> blob
+	acked    map[string]*blobT // "<backend>|<hex>" -> blob: the digest was acknowledged under a namespace of that backend
+	ackNS    map[string]map[string]bool // "<backend>|<hex>" -> namespaces under which the commit was acknowledged
+	longDel  bool              // a long-delay duplicate upload was acknowledged
 	lost     map[string]bool
+	taskGone map[string]bool
 	seenAt   map[string]float64 // unix time of the last check that found the exact bytes in the cache directory
 	flagSeen map[string]bool   // _persist observed "true" at some check after the ack
 	flagPrev map[string]string // _persist content at the previous check
@@ -299,9 +353,9 @@ func (r *runner) cachePath(hx string) string {
 
 func (r *runner) unwritten() []string {
 	var out []string
-	for hx, b := range r.acked {
-		if !r.lost[hx] && !r.be.has(hx, b.content) {
-			out = append(out, hx)
+	for key, b := range r.acked {
+		if !r.lost[key] && !r.bes[key[:1]].has(b.hex, b.content) {
+			out = append(out, key)
 		}
 	}
 	sort.Strings(out)
@@ -312,24 +366,25 @@ func (r *runner) unwritten() []string {
 // the cache to the backend).
 func (r *runner) conserve(after string, stepKind string) {
 	var keys []string
-	for hx := range r.acked {
-		keys = append(keys, hx)
+	for key := range r.acked {
+		keys = append(keys, key)
 	}
 	sort.Strings(keys)
-	for _, hx := range keys {
-		if r.lost[hx] {
+	for _, key := range keys {
+		if r.lost[key] {
 			continue
 		}
-		b := r.acked[hx]
+		b := r.acked[key]
+		hx := b.hex
 		got, err := os.ReadFile(r.cachePath(hx))
 		inCache := err == nil && bytes.Equal(got, b.content)
 		if inCache {
 			r.seenAt[hx] = float64(time.Now().UnixNano()) / 1e9
 		}
-		if inCache || r.be.has(hx, b.content) {
+		if inCache || r.bes[key[:1]].has(hx, b.content) {
 			continue
 		}
-		r.lost[hx] = true
+		r.lost[key] = true
 		cacheState := "absent"
 		if err == nil {
 			cacheState = fmt.Sprintf("present with different bytes (%d instead of %d)", len(got), len(b.content))
@@ -377,7 +432,13 @@ func (r *runner) conserve(after string, stepKind string) {
 				}
 			}
 		}
+		otherKey := map[string]string{"a": "b", "b": "a"}[key[:1]] + "|" + hx
+		_, ackedOnOther := r.acked[otherKey]
 		switch {
+		case ackedOnOther && r.bes[otherKey[:1]].has(hx, b.content) && r.flagSeen[hx]:
+			// the same digest was also committed under a namespace of the other backend and
+			// that write-back succeeded: its executor cleared the (per file) persist flag
+			class = "persist-flag-cleared-by-writeback-for-other-namespace"
 		case len(quotes) > 0:
 			// the executor dropped the task (and cleared the persist flag) claiming the
 			// file was missing at a time after which the parent still found it on disk
@@ -392,15 +453,18 @@ func (r *runner) conserve(after string, stepKind string) {
 		r.run.Violation("acked-blob-lost/"+class, r.sc.ID, map[string]interface{}{
 			"script": r.sc, "digest": hx, "size": len(b.content), "observed_after": after, "cache_file": cacheState,
 			"persist_flag_at_previous_check": r.flagPrev[hx], "persist_flag_ever_seen_true": r.flagSeen[hx],
-			"origin_error_log_lines_about_digest": quotes, "backend_mode": r.be.mode, "history": r.history,
-			"why": "the upload commit was acknowledged; the backend does not have the bytes and the origin's cache directory does not have them either",
+			"origin_error_log_lines_about_digest": quotes, "history": r.history,
+			"backend_of_the_acknowledged_namespace": key[:1], "backend_modes": map[string]string{"a": r.bes["a"].mode, "b": r.bes["b"].mode},
+			"other_backend_has_the_bytes": r.bes[map[string]string{"a": "b", "b": "a"}[key[:1]]].has(hx, b.content),
+			"why": "the upload commit was acknowledged under a namespace of this backend; that backend does not have the bytes and the origin's cache directory does not have them either",
 		})
 	}
 	// remember the protection state of every blob that still depends on the cache
-	for _, hx := range keys {
-		if r.lost[hx] {
+	for _, key := range keys {
+		if r.lost[key] {
 			continue
 		}
+		hx := r.acked[key].hex
 		pb, err := os.ReadFile(filepath.Join(filepath.Dir(r.cachePath(hx)), "_persist"))
 		st := "absent"
 		if err == nil {
@@ -414,10 +478,75 @@ func (r *runner) conserve(after string, stepKind string) {
 	r.run.Count("conservation_checks", 1)
 }
 
+// checkTasks runs at restart points (origin dead): every acknowledged digest
+// that has not reached its backend must still have a write-back task row for one
+// of the namespaces it was acknowledged under (a task leaves the store only after
+// ITS write-back happened).
+func (r *runner) checkTasks(where string) {
+	p := filepath.Join(r.dir, "db", "kraken.db")
+	if _, err := os.Stat(p); err != nil {
+		return
+	}
+	db, err := sql.Open("sqlite3", p)
+	if err != nil {
+		return
+	}
+	defer db.Close()
+	rs, err := db.Query("SELECT namespace, name FROM writeback_task")
+	if err != nil {
+		if !strings.Contains(err.Error(), "no such table") {
+			r.run.Inconclusive(r.sc.ID + ": reading write-back tasks at a restart point: " + err.Error())
+		}
+		return
+	}
+	rows := map[string]bool{}
+	var all []string
+	for rs.Next() {
+		var ns, name string
+		if rs.Scan(&ns, &name) == nil {
+			rows[ns+"|"+name] = true
+			all = append(all, ns+"|"+name[:min(8, len(name))])
+		}
+	}
+	rs.Close()
+	r.run.Count("restart_point_task_checks", 1)
+	var keys []string
+	for key := range r.acked {
+		keys = append(keys, key)
+	}
+	sort.Strings(keys)
+	for _, key := range keys {
+		b := r.acked[key]
+		if r.lost[key] || r.taskGone[key] || r.bes[key[:1]].has(b.hex, b.content) {
+			continue
+		}
+		found := false
+		for ns := range r.ackNS[key] {
+			if rows[ns+"|"+b.hex] {
+				found = true
+			}
+		}
+		if found {
+			continue
+		}
+		r.taskGone[key] = true
+		var nss []string
+		for ns := range r.ackNS[key] {
+			nss = append(nss, ns)
+		}
+		sort.Strings(nss)
+		r.run.Violation("writeback-task-missing-for-unwritten-blob", r.sc.ID, map[string]interface{}{
+			"script": r.sc, "digest": b.hex, "acknowledged_under": nss, "backend": key[:1], "observed_at": where,
+			"task_rows_in_store": all, "history": r.history,
+			"why": "the commit was acknowledged under these namespaces, their backend does not have the bytes, and no write-back task for any of them is left in the store: nothing will ever write the blob back",
+		})
+	}
+}
+
 const killSet = "write,pwrite64,fsync,fdatasync,unlink,unlinkat,ftruncate,rename,renameat,mkdirat,linkat"
 
 func (r *runner) start() error {
-	args := []string{"-dir", r.dir, "-backend", r.be.addr(), "-capacity", fmt.Sprint(r.sc.Capacity)}
+	args := []string{"-dir", r.dir, "-backend-a", r.bes["a"].addr(), "-backend-b", r.bes["b"].addr(), "-capacity", fmt.Sprint(r.sc.Capacity)}
 	if r.sc.TwoRing {
 		args = append(args, "-other-origin", "127.0.0.1:1")
 	}
@@ -484,7 +613,15 @@ func (r *runner) upload(o op, kind string) {
 		r.note("%s blob %d (%s) ns=%s NOT acked: %.80s", kind, o.Blob, b.hex[:8], o.NS, err.Error())
 		return
 	}
-	r.acked[b.hex] = b
+	r.acked[backendOf(o.NS)+"|"+b.hex] = b
+	if r.ackNS[backendOf(o.NS)+"|"+b.hex] == nil {
+		r.ackNS[backendOf(o.NS)+"|"+b.hex] = map[string]bool{}
+	}
+	r.ackNS[backendOf(o.NS)+"|"+b.hex][o.NS] = true
+	if kind == "dupupload" && o.DelayMs >= longDelayMs {
+		r.longDel = true
+		r.run.Count("uploads_acknowledged_dupupload_long_delay", 1)
+	}
 	r.run.Count("uploads_acknowledged_"+kind, 1)
 	r.note("%s blob %d (%s) ns=%s acked", kind, o.Blob, b.hex[:8], o.NS)
 }
@@ -525,6 +662,7 @@ func (r *runner) execute() (expired string, pending []string) {
 			// the attached strace killed it during an earlier step
 			r.kill("by_syscall_injection")
 			r.conserve(fmt.Sprintf("op %d: kill by syscall injection", i), "kill")
+			r.checkTasks(fmt.Sprintf("restart point before op %d", i))
 			if err := r.start(); err != nil {
 				run.Inconclusive(r.sc.ID + ": " + err.Error())
 				return "", nil
@@ -539,8 +677,12 @@ func (r *runner) execute() (expired string, pending []string) {
 			}
 			r.upload(o, o.Op)
 		case "backend":
-			r.be.setMode(o.Mode)
-			r.note("backend -> %s", o.Mode)
+			for _, t := range []string{"a", "b"} {
+				if o.Target == t || o.Target == "both" || o.Target == "" {
+					r.bes[t].setMode(o.Mode)
+				}
+			}
+			r.note("backend %s -> %s", o.Target, o.Mode)
 		case "advance":
 			r.ctl(map[string]interface{}{"op": "advance", "seconds": o.Hours * 3600})
 			r.note("clock +%dh", o.Hours)
@@ -573,6 +715,7 @@ func (r *runner) execute() (expired string, pending []string) {
 			if o.When == 0 {
 				r.kill("sigkill_now")
 				r.conserve(fmt.Sprintf("op %d: kill", i), "kill")
+				r.checkTasks(fmt.Sprintf("restart point at op %d", i))
 				if err := r.start(); err != nil {
 					run.Inconclusive(r.sc.ID + ": " + err.Error())
 					return "", nil
@@ -593,8 +736,9 @@ func (r *runner) execute() (expired string, pending []string) {
 		r.conserve(fmt.Sprintf("op %d: %s", i, ev.JSON(o)), step)
 	}
 
-	// final phase: healthy backend, bounded progress
-	r.be.setMode("up")
+	// final phase: healthy backends, bounded progress
+	r.bes["a"].setMode("up")
+	r.bes["b"].setMode("up")
 	if r.child.Exited() {
 		r.kill("by_syscall_injection")
 		r.conserve("final: kill by syscall injection", "kill")
@@ -603,8 +747,17 @@ func (r *runner) execute() (expired string, pending []string) {
 			return "", nil
 		}
 	}
+	if r.longDel {
+		// write-back tasks with a one-hour delay are not due within the script; a
+		// forced cleanup executes them regardless of their delay
+		r.forceCleanup(0)
+		r.conserve("final: forcecleanup ttl_hr=0 for not-yet-due write-backs", "forcecleanup")
+	}
 	deadline := time.Now().Add(45 * time.Second)
-	for {
+	for round := 1; ; round++ {
+		if r.longDel && round%40 == 0 && !r.child.Exited() {
+			r.forceCleanup(0) // e.g. after a restart in this phase
+		}
 		r.conserve("final phase", "final-wait")
 		u := r.unwritten()
 		if len(u) == 0 {
@@ -618,7 +771,36 @@ func (r *runner) execute() (expired string, pending []string) {
 			}
 		}
 		if time.Now().After(deadline) {
-			return "bounded progress window expired", u
+			// describe what the stuck digests look like (diagnosis only)
+			r.child.Kill()
+			r.waitTrace()
+			rows := map[string][]string{}
+			if db, err := sql.Open("sqlite3", filepath.Join(r.dir, "db", "kraken.db")); err == nil {
+				if rs, err := db.Query("SELECT namespace, name, status, delay FROM writeback_task"); err == nil {
+					for rs.Next() {
+						var ns, name, st string
+						var delay int64
+						if rs.Scan(&ns, &name, &st, &delay) == nil {
+							rows[name] = append(rows[name], fmt.Sprintf("%s/%s/delay=%s", ns, st, time.Duration(delay)))
+						}
+					}
+					rs.Close()
+				}
+				db.Close()
+			}
+			var desc []string
+			for _, key := range u {
+				b := r.acked[key]
+				idx := -1
+				for i, bb := range r.blobs {
+					if bb == b {
+						idx = i
+					}
+				}
+				_, cerr := os.Stat(r.cachePath(b.hex))
+				desc = append(desc, fmt.Sprintf("%s(blob %d, in cache: %v, persist flag: %s, task rows: %v)", key[:10], idx, cerr == nil, r.flagPrev[b.hex], rows[b.hex]))
+			}
+			return "bounded progress window expired", desc
 		}
 		time.Sleep(50 * time.Millisecond)
 	}
@@ -632,29 +814,36 @@ func runScript(t *testing.T, run *ev.Run, bin, base string, sc script, seed int6
 		if err := os.MkdirAll(dir, 0o755); err != nil {
 			t.Fatal(err)
 		}
-		be, err := newBackend(seed)
+		bea, err := newBackend(seed)
 		if err != nil {
 			t.Fatal(err)
 		}
-		r := &runner{run: run, bin: bin, dir: dir, sc: sc, seed: seed, be: be, r: rand.New(rand.NewSource(seed)),
-			blobs: map[int]*blobT{}, acked: map[string]*blobT{}, lost: map[string]bool{}, seenAt: map[string]float64{}, flagSeen: map[string]bool{}, flagPrev: map[string]string{}}
+		beb, err := newBackend(seed + 7)
+		if err != nil {
+			t.Fatal(err)
+		}
+		r := &runner{run: run, bin: bin, dir: dir, sc: sc, seed: seed, bes: map[string]*backendSrv{"a": bea, "b": beb}, r: rand.New(rand.NewSource(seed)),
+			blobs: map[int]*blobT{}, acked: map[string]*blobT{}, lost: map[string]bool{}, taskGone: map[string]bool{}, ackNS: map[string]map[string]bool{}, seenAt: map[string]float64{}, flagSeen: map[string]bool{}, flagPrev: map[string]string{}}
 		expired, pending := r.execute()
 		if attempt == 0 {
 			run.Case(ev.JSON(sc), r.killsUnw > 0 && r.delUnw > 0)
 			run.Count("kills_with_unwritten_acked_blobs", int64(r.killsUnw))
 			run.Count("deletion_path_steps_with_unwritten_acked_blobs", int64(r.delUnw))
 			run.Count("acked_digests", int64(len(r.acked)))
-			be.mu.Lock()
-			for k, v := range be.counts {
-				run.Count("backend_"+k, int64(v))
+			for _, be := range r.bes {
+				be.mu.Lock()
+				for k, v := range be.counts {
+					run.Count("backend_"+k, int64(v))
+				}
+				be.mu.Unlock()
 			}
-			be.mu.Unlock()
 			if run.WantSample() {
 				run.Sample(map[string]interface{}{"script": sc.ID, "capacity": sc.Capacity, "two_member_ring": sc.TwoRing,
 					"ops": len(sc.Ops), "acked": len(r.acked), "lives": r.lives, "first_ops": sc.Ops[:min(8, len(sc.Ops))]})
 			}
 		}
-		be.close()
+		bea.close()
+		beb.close()
 		if os.Getenv("C31_KEEP") == "" {
 			_ = os.RemoveAll(dir)
 		}
@@ -672,14 +861,15 @@ func runScript(t *testing.T, run *ev.Run, bin, base string, sc script, seed int6
 func TestC31(t *testing.T) {
 	run := ev.Start(t, "C31", "fault_enumeration",
 		"PRNG-generated fault scripts against a real origin process (blob server + CAStore with LRU capacity 2-4 + write-back manager on sqlite + "+
-			"testfs backend client): 25-70 steps of uploads through the real blobclient (new blobs, re-uploads of existing digests, duplicate uploads with "+
+			"two testfs backends selected by namespace, each with its own outage mode; the same digest is also committed under namespaces of both backends "+
+			"(conflict path) and duplicate commits carry write-back delays from 0 to 1 h, with a forced cleanup before the delay elapsed): 25-70 steps of uploads through the real blobclient (new blobs, re-uploads of existing digests, duplicate uploads with "+
 			"write-back delay), backend mode changes (up/down/flaky), clock advances (1-10 h against TTI 1 h / TTL 2 h), cleanup passes, forced cleanups "+
 			"(ttl_hr 0 / 100000), pauses, downloads, and kills (SIGKILL now, or on entry to the N-th write-type syscall via attached strace) followed by "+
 			"restarts on the same directory. A script is non-trivial when at least one kill and at least one deletion-path step (cleanup, forced cleanup, "+
 			"LRU pressure) happened while an acknowledged blob was not yet in the backend; distinct = distinct scripts.")
 	defer run.Finish()
 	run.Assume("process-crash model: completed syscalls persist after SIGKILL (no power loss)")
-	run.Assume("the storage backend is an in-memory testfs-protocol server in the parent (all-or-nothing uploads, never loses data); remote clusters are absent; the second ring member, when configured, is unreachable")
+	run.Assume("the two storage backends are in-memory testfs-protocol servers in the parent (all-or-nothing uploads, never loses data); remote clusters are absent; the second ring member, when configured, is unreachable")
 	run.Assume("bounded progress (every acknowledged digest reaches the healthy backend) is a watchdog: its expiry is inconclusive")
 
 	bin := proc.Build(t, "./c31/cmd/c31origin", false)
